@@ -238,7 +238,11 @@ def sign_env(f, gname):
     return env
 
 
+_EXACT_DEFS = set()       # classes whose _compute_grads definition was proved exact by C03-j in this run
+
+
 def chain_rule(pm, ctx):
+    _EXACT_DEFS.clear()
     from ..e8_models import check_model_gradient
     from ..e8_index import Unsupported
     seen = {}
@@ -259,6 +263,8 @@ def chain_rule(pm, ctx):
         except RecursionError:
             ctx.unrecognised("C03-j", f"{K.name}: chain rule", "term too deep")
             continue
+        if res and all(st_ == "exact" for _, st_, _ in res) and C is not None:
+            _EXACT_DEFS.add(C.name)
         for wname, status, detail in res:
             site = f"{K.name}: direction of {wname}"
             if status == "exact":
@@ -447,6 +453,8 @@ def run(pm, ctx):
             elif s == 1:
                 ctx.violation("C03-g", unit.relpath, qn, norm_src(st), f"{norm_src(e)} has the sign of +dGEMINI: the optimiser would "
                               f"minimise the GEMINI", line=st.lineno, site=site)
+            elif ci.name in _EXACT_DEFS:
+                ctx.ok("C03-g", site, "sign not derivable from negations alone; the exact chain-rule comparison (C03-j) holds for this definition")
             else:
                 ctx.undecided_site("C03-g", site, f"formal sign is {s}")
         for st in pen:
